@@ -1,14 +1,67 @@
 (** Property C12 — Render is all-or-nothing and reports every failure.
-    OBLIGATIONS: C12_nonvacuous *)
-From GV Require Import Compiler.Compile.
+    The theorems are about Runtime/Render.v, the protocol generated templates follow (buffer, error check after
+    every fallible statement, nested renders into the same buffer, one final Write to a foreign destination);
+    they hold for every program, every set of failing sites, and every destination behaviour (accepts, fails
+    without taking anything, takes part and reports a short write).  The model is run against the real compiler
+    and runtime on generated programs by the C12 check (same status, same bytes accepted call by call).
+    [SFuel] is the model's recursion bound, not a behaviour of the code: the statements exclude it.
+    OBLIGATIONS: C12_failure_inside_writes_nothing C12_success_delivers_document C12_writer_failure_reported
+                 C12_writer_failure_not_swallowed C12_all_or_nothing C12_no_failure_succeeds C12_success_means_no_failure
+                 C12_nonvacuous *)
+From GV Require Import Compiler.Compile Runtime.Render Proofs.RenderProofs.
+Open Scope N_scope.
 
-(** every statement that can fail is followed by the error check before anything else is written *)
+Theorem C12_failure_inside_writes_nothing : forall templates fails fuel i m acc s,
+  render_top templates fails fuel i m = (acc, SSite s) -> acc = [] /\ fails s = true.
+Proof. exact failure_inside_writes_nothing. Qed.
+Print Assumptions C12_failure_inside_writes_nothing.
+
+Theorem C12_success_delivers_document : forall templates fails fuel i m acc,
+  render_top templates fails fuel i m = (acc, SOk) -> acc = [document templates fuel i].
+Proof. exact success_delivers_document. Qed.
+Print Assumptions C12_success_delivers_document.
+
+Theorem C12_writer_failure_reported : forall templates fails fuel i m acc,
+  render_top templates fails fuel i m = (acc, SWriter) -> m <> WOk /\ acc = [fst (dest_write m (document templates fuel i))].
+Proof. exact writer_failure_reported. Qed.
+Print Assumptions C12_writer_failure_reported.
+
+Theorem C12_writer_failure_not_swallowed : forall templates fails fuel i m acc st,
+  render_top templates fails fuel i m = (acc, st) -> m <> WOk -> st <> SOk.
+Proof. exact writer_failure_not_swallowed. Qed.
+Print Assumptions C12_writer_failure_not_swallowed.
+
+Theorem C12_all_or_nothing : forall templates fails fuel i m acc st,
+  render_top templates fails fuel i m = (acc, st) -> st <> SOk -> m <> WShort -> List.concat acc = [].
+Proof. exact all_or_nothing. Qed.
+Print Assumptions C12_all_or_nothing.
+
+Theorem C12_no_failure_succeeds : forall templates fuel i acc st,
+  render_top templates (fun _ => false) fuel i WOk = (acc, st) -> st = SOk \/ st = SFuel.
+Proof. exact no_failure_succeeds. Qed.
+Print Assumptions C12_no_failure_succeeds.
+
+(** no failure is swallowed: a body that ran to its end met no failing site (it wrote what it writes when nothing fails) *)
+Theorem C12_success_means_no_failure : forall templates fails fuel stmts ch buf buf',
+  frun templates fails fuel stmts ch buf = (buf', None) -> frun templates (fun _ => false) fuel stmts ch buf = (buf', None).
+Proof. exact run_success_no_failure. Qed.
+Print Assumptions C12_success_means_no_failure.
+
+(** a layout with children, a page that fails inside the children block it passes, and the three destinations;
+    and the generated code does follow the protocol *)
 Example C12_nonvacuous :
+  let layout := [FLit (lit "<main>"); FChildren; FLit (lit "</main>")] in
+  let page := [FLit (lit "a"); FRender 0 (Some [FLit (lit "b"); FDyn 2 (lit "v"); FLit (lit "c")]); FLit (lit "d")] in
+  let ts := [layout; page] in
   let src := lit "@goht P(s string) {" ++ [10; 9] ++ lit "%p= s" ++ [10] ++ lit "}" ++ [10] in
+  render_top ts (fun _ => false) 50 1 WOk = ([lit "a<main>bvc</main>d"], SOk) /\
+  render_top ts (fun s => Nat.eqb s 2) 50 1 WOk = ([], SSite 2) /\
+  render_top ts (fun _ => false) 50 1 WFail = ([[]], SWriter) /\
+  render_top ts (fun _ => false) 50 1 WShort = ([lit "a<main>bv"], SWriter) /\
   match cli_generate src with
   | Some out => contains (lit "CaptureErrors(goht.EscapeString(s)); __err != nil { return }") out &&
                 contains (lit "_, __err = __w.Write(__buf.Bytes())") out
   | None => false
   end = true.
-Proof. vm_compute. reflexivity. Qed.
+Proof. vm_compute. repeat split; reflexivity. Qed.
 Print Assumptions C12_nonvacuous.
